@@ -219,6 +219,11 @@ class Scenario:
         self.steps.append({"kind": "cherry_pick", "side": side, "main": main_cp, "to": self.cp_renamed, "edits": []})
         cur.pop("cp.txt")
         cur[self.cp_renamed] = side[:-1] + ["HUMAN main changed the tail"]
+        # step 7: a person re-indents a file that holds AI lines (whitespace only), commits that, and lists the
+        # commit in `.git-blame-ignore-revs` at the repository root: blame must find the file from every context
+        reindented = [("    " + l if k % 2 == 0 and l.strip() else l) for k, l in enumerate(cur["a/b.txt"])]
+        self.steps.append({"kind": "ignore_revs", "file": "a/b.txt", "lines": reindented, "edits": []})
+        cur["a/b.txt"] = reindented
         self.final = cur
 
     def describe(self):
@@ -368,6 +373,16 @@ class Runner:
             self.g(r, "add", "-A", "--", ".")
             self.g(r, "commit", "-q", "-m", "main: tail of cp")
             self.g(r, "cherry-pick", side_sha)
+        elif s["kind"] == "ignore_revs":
+            self.apply_edit(r, ("human", None, s["file"], s["lines"]))
+            self.g(r, "add", "-A", "--", ".")
+            self.g(r, "commit", "-q", "-m", "re-indent")
+            rc, out, _ = r.plain_git("rev-parse", "HEAD")
+            rc2, top, _ = r.plain_git("rev-parse", "--show-toplevel")
+            with open(os.path.join(top.strip() or r.path, ".git-blame-ignore-revs"), "w") as fh:
+                fh.write("# formatting only\n" + out.strip() + "\n")
+            self.g(r, "add", "-A", "--", ".")
+            self.g(r, "commit", "-q", "-m", "ignore-revs file")
         elif s["kind"] == "amend":
             self.g(r, "add", "-A", "--", ".")
             self.g(r, "commit", "-q", "-m", "before amend")
